@@ -34,7 +34,7 @@ V = P.Variable
 
 IDENTS = ["x", "<state>y", "<p>x", "<dt>", "y_1"]
 FUNCS = ["f", "<func>f"]
-CONSTS = [0, 1, -2, 0.5, 1e-12, 1e+20]
+CONSTS = [0, 1, 1.0, -2, 0.5, 1e-12, 1e+20]
 CMPS = ["<", "<=", "==", "!=", ">=", ">"]
 
 BIN = ["+", "-", "*", "/", "//", "%", "**", "and", "or"] + ["cmp" + c for c in CMPS]
@@ -191,11 +191,32 @@ def shards(tier, seed):
     return out
 
 
+def twin(t):
+    """same tree with every integral numeric constant spelled in the other type (1 <-> 1.0): equal in Python,
+    different expressions.  Parsing the twin first makes a process-wide parse cache observable inside one case."""
+    if t[0] == "c":
+        v = t[1]
+        if isinstance(v, bool) or isinstance(v, str):
+            return t
+        if isinstance(v, int):
+            return ("c", float(v))
+        if isinstance(v, float) and v == int(v) and abs(v) < 1e15:
+            return ("c", int(v))
+        return t
+    return tuple(twin(x) if isinstance(x, tuple) else x for x in t)
+
+
 def check(t):
     """returns (sub, detail) or None, printed text"""
     from dagrt.expression import parse
     from dagrt.utils import get_variables
     e = build(t)
+    tw = twin(t)
+    if tw != t:
+        try:
+            parse(str(build(tw)))      # history: the equal-valued spelling has been parsed before
+        except Exception:
+            pass
     try:
         s = str(e)
     except Exception as ex:
@@ -310,12 +331,43 @@ def totuple(t):
     return tuple(totuple(x) if isinstance(x, (list, tuple)) else x for x in t)
 
 
+_KNOWN = []
+
+
+def fresh_check(t):
+    """check(t) in a fresh interpreter process: parse() must be a function of its argument; if a case only fails
+    after other parses of the same process (a cache shared between calls), the witness has to fail from a clean
+    history too (the int/float twin inside check() supplies the one-step history the case itself needs)"""
+    import subprocess
+    import sys
+    code = ("import sys, json; sys.path.insert(0, %r); sys.path.insert(0, %r); from mc import kernel; "
+            "kernel.own_uninitialised_memory(); from mc.checks import c19; "
+            "r, s = c19.check(c19.totuple(json.loads(%r))); print('@@' + json.dumps(r))" % (
+                kernel.REPO, kernel.VERIF, json.dumps(t)))
+    p = subprocess.run([sys.executable, "-c", code], capture_output=True, text=True, timeout=600,
+                       env=dict(__import__("os").environ, PYTHONHASHSEED="0"))
+    lines = [ln for ln in p.stdout.splitlines() if ln.startswith("@@")]
+    if not lines:
+        return None
+    r = json.loads(lines[-1][2:])
+    return tuple(r) if r else None
+
+
 def violation(t, r):
+    """returns a violation record whose witness fails from a clean process, or None"""
     sub = r[0]
     s = shrink(t, sub)
-    r2, _ = check(s)
-    return {"sub": sub, "sig": "C19/%s:%s" % (sub, shape(s)), "witness": {"tree": s},
-            "detail": (r2 or r)[1]}
+    if not _KNOWN:
+        _KNOWN.append(kernel.load_known()[0])
+    if (ID, "C19/%s:%s" % (sub, shape(s))) in _KNOWN[0]:
+        # a listed finding: deterministic, no clean-process confirmation needed (the kernel prints it as KNOWN-FINDING)
+        r2, _ = check(s)
+        return {"sub": sub, "sig": "C19/%s:%s" % (sub, shape(s)), "witness": {"tree": s}, "detail": (r2 or r)[1]}
+    for cand in (s, t):
+        fr = fresh_check(cand)
+        if fr is not None and fr[0] == sub:
+            return {"sub": sub, "sig": "C19/%s:%s" % (sub, shape(cand)), "witness": {"tree": cand}, "detail": fr[1]}
+    return None
 
 
 BT_CONTEXTS = ["%s", "%s + 1", "f(%s)", "f(1, k=%s)", "%s(1)", "x[%s]", "%s[0]", "(1 if %s else 2)"]
@@ -415,7 +467,11 @@ def run_shard(desc, acc):
             if key in seen_viol:
                 acc.count_violation(r[0])
                 continue
-            v = violation(s1, r)
+            v = violation(s1, r) or violation(t, r)
+            if v is None:
+                seen_viol[key] = None
+                acc.count("violations_not_reproducible_from_a_clean_process")
+                continue
             seen_viol[key] = v["sig"]
             acc.viol_counts[r[0]] = acc.viol_counts.get(r[0], 0) + 1
             if v["sig"] not in [x["sig"] for x in acc.violations]:
@@ -440,7 +496,7 @@ def replay(witness):
         check_backticks(acc)
         return [v for v in acc.violations if v["witness"]["backtick"][1] == witness["backtick"][1]][:1]
     t = totuple(witness["tree"])
-    r, _ = check(t)
+    r = fresh_check(t)
     if r is None:
         return []
-    return [violation(t, r)]
+    return [{"sub": r[0], "sig": "C19/%s:%s" % (r[0], shape(t)), "witness": {"tree": t}, "detail": r[1]}]
